@@ -53,6 +53,22 @@ func verif_ReadMsg(c io.Reader) {
 	verif.Ensures(verif.Same(m, verif.NthRet[Message]("MsgCtl).ReadMsg", 0, 0)) && err == verif.RetErr("MsgCtl).ReadMsg", 1), "codec_result_returned")
 }
 
+// ReadMsgInto ("without reading past the frame"): the registered codec reads
+// from the caller's reader itself - no buffering layer that would swallow the
+// bytes that follow the frame (the payload after StartWorkConn, the next
+// datagram message) - into the caller's message. (A lemma, not a contract:
+// callers keep executing the function.)
+//
+//verif:lemma
+//verif:props C17
+func verif_ReadMsgInto_reads_from_the_callers_reader(c io.Reader, m Message) {
+	verif.ResetEvents()
+	err := ReadMsgInto(c, m)
+	const ev = "MsgCtl).ReadMsgInto"
+	verif.Assert(verif.CallCount(ev) == 1 && verif.CalledWith(ev, 0, msgCtl) && verif.CalledWith(ev, 1, c) && verif.Same(verif.NthArg[any](ev, 0, 2), any(m)), "codec_reads_the_callers_reader_into_the_callers_message")
+	verif.Assert(err == verif.RetErr(ev, 0) && !verif.Called("bufio.NewReader"), "codec_verdict_returned_and_nothing_buffered")
+}
+
 //verif:contract ~/pkg/msg.WriteMsg
 //verif:props C17
 func verif_WriteMsg(c io.Writer, m any) {
